@@ -1079,13 +1079,16 @@ func (w *c10World) report(c *lib.Ctx, seen map[string]bool, family string, sweep
 	}
 	seen[sig] = true
 	min, midx := h, idx
-	if h.ops[idx].kind == 'c' {
+	if h.ops[idx].kind == 'c' && len(seen) <= 25 { // only the first 25 violations get a replay file
 		min, midx = w.shrink(c, h, idx)
 	}
 	impl, model := w.check(c, min)
 	_, iw2, mw2, still := w.firstDiff(min, impl, model)
 	if !still { // flaky: keep the original observation
 		min, midx, iw2, mw2 = h, idx, iw, mw
+	} else if min.ops[midx].kind == 'c' {
+		// the signature is that of the minimal history (stable across seeds and families)
+		sig = c10Signature(w, min, midx, c10Aspect(min, midx, iw2, mw2))
 	}
 	c.Report(sig, sweep, map[string]any{
 		"family":        family,
